@@ -359,7 +359,50 @@ def _is_num(v):
     return isinstance(v, (int, float)) and not isinstance(v, bool) or (z3.is_expr(v) and v.sort() in (INT, REAL))
 
 
+class Cx:
+    """A complex number as a pair of real terms (numpy complex128 read as a pair of reals)."""
+
+    def __init__(self, re, im):
+        self.re, self.im = re, im
+
+    def __repr__(self):
+        return f"Cx({self.re}, {self.im})"
+
+
+def _is_zero(v):
+    return (isinstance(v, (int, float)) and not isinstance(v, bool) and v == 0) or (z3.is_expr(v) and z3.is_rational_value(v) and v.numerator_as_long() == 0)
+
+
+def _cx_arith(op, a, b):
+    a = a if isinstance(a, Cx) else Cx(a, 0)
+    b = b if isinstance(b, Cx) else Cx(b, 0)
+
+    def add(x, y, sub=False):
+        if _is_zero(y):
+            return x
+        if _is_zero(x):
+            return _arith(ast.Mult(), -1, y) if sub else y
+        return _arith(ast.Sub() if sub else ast.Add(), x, y)
+
+    def mul(x, y):
+        return 0 if _is_zero(x) or _is_zero(y) else _arith(ast.Mult(), x, y)
+
+    if isinstance(op, ast.Add):
+        return Cx(add(a.re, b.re), add(a.im, b.im))
+    if isinstance(op, ast.Sub):
+        return Cx(add(a.re, b.re, True), add(a.im, b.im, True))
+    if isinstance(op, ast.Mult):
+        return Cx(add(mul(a.re, b.re), mul(a.im, b.im), True), add(mul(a.re, b.im), mul(a.im, b.re)))
+    if isinstance(op, ast.Div) and _is_zero(b.im):
+        return Cx(0 if _is_zero(a.re) else _arith(op, a.re, b.re), 0 if _is_zero(a.im) else _arith(op, a.im, b.re))
+    raise Unsupported(f"complex operator {type(op).__name__}")
+
+
 def _arith(op, a, b):
+    if isinstance(a, Cx) or isinstance(b, Cx):
+        if not all(isinstance(x, Cx) or _is_num(x) for x in (a, b)):
+            raise Unsupported(f"arithmetic on {a!r}, {b!r}")
+        return _cx_arith(op, a, b)
     if not (_is_num(a) and _is_num(b)):
         raise Unsupported(f"arithmetic on {a!r}, {b!r}")
     both_int = all(isinstance(x, int) or (z3.is_expr(x) and x.sort() == INT) for x in (a, b))
@@ -558,6 +601,8 @@ class _Exec:
     def e_Constant(self, node, st):
         if isinstance(node.value, (bool, int, float, str)) or node.value is None:
             return node.value
+        if isinstance(node.value, complex):
+            return Cx(node.value.real, node.value.imag)
         raise Unsupported(f"constant {node.value!r}")
 
     def e_Name(self, node, st):
@@ -581,6 +626,11 @@ class _Exec:
                 return -v
             if z3.is_expr(v) and v.sort() == INT:
                 return -v
+            if isinstance(v, Cx):
+                return _cx_arith(ast.Mult(), -1, v)
+            if isinstance(v, (Arr, View, ColView, LazyArr)) and v.ndim == 1:
+                heap_now = dict(st.heap)
+                return LazyArr(v.shape, lambda i: _arith(ast.Mult(), -1, v.sel(heap_now, i)))
             return rmul(-1, v)
         if isinstance(node.op, ast.Not):
             return z3.Not(_bool(v)) if z3.is_expr(v) else (not v)
@@ -601,9 +651,11 @@ class _Exec:
             heap_now, op = dict(st.heap), node.op
             if isinstance(node.op, ast.Pow) and arr_left and isinstance(sc, int) and arr.ndim == 1:
                 return LazyArr(arr.shape, lambda i: _arith(op, arr.sel(heap_now, i), sc))
-            if arr.ndim != 1 or not _is_num(sc) or _is_inf(sc) or not isinstance(node.op, (ast.Add, ast.Sub, ast.Mult, ast.Div)):
+            if arr.ndim != 1 or not (_is_num(sc) or isinstance(sc, Cx)) or _is_inf(sc) or not isinstance(node.op, (ast.Add, ast.Sub, ast.Mult, ast.Div)):
                 raise Unsupported("array/scalar arithmetic other than + - * / ** on a 1-d array and a finite scalar")
             return LazyArr(arr.shape, (lambda i: _arith(op, arr.sel(heap_now, i), sc)) if arr_left else (lambda i: _arith(op, sc, arr.sel(heap_now, i))))
+        if isinstance(a, Cx) or isinstance(b, Cx):
+            return _arith(node.op, a, b)
         if all(isinstance(x, (int, float)) and not isinstance(x, bool) for x in (a, b)) and not isinstance(node.op, ast.Div):
             return {ast.Add: a + b, ast.Sub: a - b, ast.Mult: a * b}.get(type(node.op)) if type(node.op) in (ast.Add, ast.Sub, ast.Mult) else _arith(node.op, a, b)
         return _arith(node.op, a, b)
@@ -703,6 +755,18 @@ class _Exec:
                 if v.ndim != 1:
                     raise Unsupported(".size of an array that is not 1-d")
                 return v.shape[0]
+            if node.attr in ("real", "imag") and v.ndim == 1:
+                heap_now, part = dict(st.heap), node.attr
+
+                def component(i):
+                    e = v.sel(heap_now, i)
+                    if isinstance(e, Cx):
+                        return e.re if part == "real" else e.im
+                    return e if part == "real" else 0
+
+                return LazyArr(v.shape, component)
+        if isinstance(v, Cx) and node.attr in ("real", "imag"):
+            return v.re if node.attr == "real" else v.im
         raise Unsupported(f"attribute .{node.attr} of {v!r} (line {node.lineno})")
 
     def e_Subscript(self, node, st):
@@ -913,6 +977,31 @@ class _Exec:
             raise Unsupported("for/else")
         it = node.iter
         d = self.dotted(it.func) if isinstance(it, ast.Call) else None
+        if d == "zip" and "zip" not in st.vars and not it.keywords and len(it.args) >= 1 and all(isinstance(a, ast.Name) for a in it.args):
+            # `for x, y in zip(a, b): body`  ==  `for k in range(min(len(a), len(b))): x, y = a[k], b[k]; body`
+            seqs = [self.eval(a, st) for a in it.args]
+            if not all(isinstance(q, (Arr, View, ColView)) and q.ndim == 1 for q in seqs):
+                raise Unsupported(f"zip over something that is not a 1-d array (line {node.lineno})")
+            n = _int(seqs[0].shape[0])
+            for q in seqs[1:]:
+                m = _int(q.shape[0])
+                n = z3.If(m < n, m, n)
+            kname, nname = f"zip!k{node.lineno}", f"zip!n{node.lineno}"
+            st.vars[nname] = z3.simplify(n)
+            elems = [ast.Subscript(value=ast.Name(id=a.id, ctx=ast.Load()), slice=ast.Name(id=kname, ctx=ast.Load()), ctx=ast.Load()) for a in it.args]
+            if isinstance(node.target, ast.Name) and len(elems) == 1:
+                bind = ast.Assign(targets=[node.target], value=elems[0])
+            elif isinstance(node.target, (ast.Tuple, ast.List)) and len(node.target.elts) == len(elems):
+                bind = ast.Assign(targets=[node.target], value=ast.Tuple(elts=elems, ctx=ast.Load()))
+            else:
+                raise Unsupported(f"zip loop target at line {node.lineno}")
+            loop = ast.For(target=ast.Name(id=kname, ctx=ast.Store()), iter=ast.Call(func=ast.Name(id="range", ctx=ast.Load()), args=[ast.Name(id=nname, ctx=ast.Load())], keywords=[]), body=[bind] + list(node.body), orelse=[])
+            ast.copy_location(loop, node)
+            ast.fix_missing_locations(loop)
+            for sub in ast.walk(loop):
+                if not hasattr(sub, "lineno"):
+                    sub.lineno = node.lineno
+            return self.s_For(loop, st)
         if d not in ("range", "nb.prange", "numba.prange") or len(it.args) != 1 or it.keywords or not isinstance(node.target, ast.Name):
             raise Unsupported(f"loop form at line {node.lineno}: only `for i in range(e)` / `nb.prange(e)`")
         if self.concrete:
